@@ -553,24 +553,41 @@ func (c *Ctx) c08Aggregates(n int) {
 		allowCoerced := i%5 == 0 // ranges with numeric text / booleans: the known finding
 		env := c.c08Env(!allowCoerced)
 		f := env.file()
-		c1, r1 := 1+c.Rng.Intn(3), 1+c.Rng.Intn(4)
-		c2, r2 := c1+c.Rng.Intn(4-c1), r1+c.Rng.Intn(5-r1)
-		a, _ := excelize.CoordinatesToCellName(c1, r1)
-		b, _ := excelize.CoordinatesToCellName(c2, r2)
-		sh := []string{"Sheet1", "Other"}[c.Rng.Intn(2)]
-		rng := sh + "!" + a + ":" + b
+		// one to three arguments: ranges (on either sheet, possibly overlapping) and literal numbers, in any order;
+		// the fold is over all referenced cells and literals, in argument order
+		var args []string
 		var cells []c08cell
 		known := false
-		for r := r1; r <= r2; r++ {
-			for col := c1; col <= c2; col++ {
-				nm, _ := excelize.CoordinatesToCellName(col, r)
-				k := env.cells[sh+"!"+nm]
-				cells = append(cells, k)
-				if k.Kind == "numtext" || k.Kind == "bool" {
-					known = true
+		nargs := 1
+		if i%2 == 1 {
+			nargs = 2 + c.Rng.Intn(2)
+		}
+		for a := 0; a < nargs; a++ {
+			if nargs > 1 && c.Rng.Intn(4) == 0 {
+				v := c08nums[c.Rng.Intn(len(c08nums))]
+				args = append(args, strconv.FormatFloat(v, 'f', -1, 64))
+				cells = append(cells, c08cell{Kind: "num", Num: v})
+				continue
+			}
+			c1, r1 := 1+c.Rng.Intn(3), 1+c.Rng.Intn(4)
+			c2, r2 := c1+c.Rng.Intn(4-c1), r1+c.Rng.Intn(5-r1)
+			ca, _ := excelize.CoordinatesToCellName(c1, r1)
+			cb, _ := excelize.CoordinatesToCellName(c2, r2)
+			sh := []string{"Sheet1", "Other"}[c.Rng.Intn(2)]
+			args = append(args, sh+"!"+ca+":"+cb)
+			for r := r1; r <= r2; r++ {
+				for col := c1; col <= c2; col++ {
+					nm, _ := excelize.CoordinatesToCellName(col, r)
+					k := env.cells[sh+"!"+nm]
+					cells = append(cells, k)
+					if k.Kind == "numtext" || k.Kind == "bool" {
+						known = true
+					}
 				}
 			}
 		}
+		rng := strings.Join(args, ",")
+		c.R.Dist[fmt.Sprintf("aggregate arguments=%d", nargs)]++
 		for _, fn := range []string{"SUM", "COUNT", "COUNTA", "MIN", "MAX", "PRODUCT", "AVERAGE"} {
 			p := pend{fn: fn, rng: rng, cells: cells, known: known}
 			c.guard("C08_no_panic", fn+"("+rng+")", func() {
